@@ -47,6 +47,15 @@ def run(c):
         "(composition in Driver/C06.lean `nest`, C06_quarantine_flag_monotone(_chain) for any depth); generated nest ops keep "
         "the inner pipeline from refusing commands itself (no reject verdict, no DMARC reject) and the outer pipeline's own "
         "targets from refusing, so that nothing feeds back from the inner to the outer transaction but the body result",
+        "several messages on one pipeline object (multi ops) are interleaved at command granularity: MAIL, every RCPT and "
+        "DATA of the transactions in every order, one command at a time (two commands of different messages never run "
+        "concurrently); the model lets a command act on its own transaction only (`multi`; C06_transactions_independent: "
+        "every transaction ends as `run` says for it alone) - that the code shares nothing between the messages of a "
+        "pipeline but the configuration it only reads is what these runs check; the verdict of a check may depend on the "
+        "message (the scripted checks find their message by MsgMetadata.ID)",
+        "the envelope sender is not an input of the model: it selects the source block (routing is property C04; the "
+        "oracle expects the null reverse-path at default_source, a sender of s<k>.example / its IDN spelling at source "
+        "block k) and is an argument of the checks",
     ]
     return c.finish(
         rule="random pipelines: 1-4 scripted checks (thorough: up to 7) placed in 1-3 of global / source / 1-3 destination blocks "
@@ -72,7 +81,22 @@ def run(c):
         "with every ignore verdict removed; every run is compared with the Lean model (command replies, per-recipient "
         "results, quarantine flag, hand-overs seen by the targets, per-state call logs) and judged by the oracle written "
         "from the property; plus the FailAction table and the real target.remote against a scripted next hop with the "
-        "flag set before RCPT / before DATA; distinct = distinct op lines",
+        "flag set before RCPT / before DATA; 18% of the messages have the null reverse-path (MAIL FROM:<>), 15% an IDN "
+        "sender, a quoted local part with an at-sign in it or an upper-case spelling (op token f=); 28% of the cases are "
+        "multi ops: ONE pipeline object built by the REAL configuration parser (cfgparser.Read + msgpipeline.New) from "
+        "generated configuration text - 4-7 scripted checks (thorough: up to 9), every check of a scope in its own `check` "
+        "directive (0-5 per scope, lists of 3 and 5 entries - which repeated append leaves with spare capacity - "
+        "favoured), 1-3 source blocks (source s<k>.example bücher<k>.example { … }, default_source) with 1-3 destination "
+        "blocks each and mostly checks of their own, a modify group per scope, 1-3 targets - and 1-3 (thorough: 4) "
+        "transactions on it, each with its own sender (selecting a source block; the null reverse-path goes to "
+        "default_source), mode, 1-3 recipients spread over the destination blocks, verdicts and delays for THIS message "
+        "(reject density 0-8%, in 45% a check of the message's own source / destination block rejects or quarantines "
+        "the body), 8% pre-flagged; their commands MAIL / RCPT… / DATA interleaved by a uniformly random merge (the "
+        "schedule is part of the op line), then the same transactions one after the other and in a second random "
+        "interleaving (own op lines): what a transaction shows must be the same (C06/schedule-dependent); every oracle "
+        "rule is applied to every transaction on its own (the calls a message's state objects got, the deliveries made "
+        "for it), a state object must only be asked while a command of its message runs (C06/cross-transaction-call) and "
+        "be shown the sender, recipients and body of its message (C06/foreign-message-shown); distinct = distinct op lines",
         explanation="theorems over all configurations, envelopes, both body paths and all completion orders; model tied to "
         "check_runner.go / msgpipeline.go by differential runs on the real pipeline and by regenerated call lists (T1)",
         search=search,
